@@ -267,7 +267,7 @@ def cache_phase(run, tier, workdir, binary):
         raise vlib.Infra("cache replay failed: " + p.stderr[-1000:])
     groups = el.split_trace(os.path.join(cd, "ct.ndjson"), marker='"op":"hist"')
     tc = dict(consts, MaxOps=1000)
-    stm, fm = el.validate_groups(cd, groups, "TraceCache", tc, CACHE_INV, ["M_NoHalfBuilt", "M_PublishedStable"], "cmon",
+    stm, fm = el.validate_groups(cd, groups, "TraceCache", tc, CACHE_INV, ["M_NoHalfBuilt", "M_PublishedStable", "M_FailedLookupChangesNothing"], "cmon",
                                  spec="MonitorSpec")
     stc, fc = el.validate_groups(cd, groups, "TraceCache", tc, CACHE_INV, [], "cconf")
     run.cov["states"] += stm["states"] + stc["states"]
